@@ -427,7 +427,9 @@ func (fr *Frame) enterLoop(li *loopInfo, edges []*State, preds []*ssa.BasicBlock
 		fr.typeInv(st, t, phi.Type())
 	}
 	ws := fr.loopWrites(li)
+	before := st.clone()
 	fr.havocClasses(st, ws, fmt.Sprintf("loop%d", li.ordinal))
+	fr.loopFrame(li, before, st, ws)
 	// 3. assume invariants
 	for _, cl := range invs {
 		if cl.kind != "invariant" {
